@@ -253,10 +253,11 @@ func (s *Scenario) materialise() (src []byte, plain []byte) {
 	}
 	dl = append(dl, append([]byte("; "), commentText(r, encAt(), s.Light)...))
 	pl2 = append(pl2, []byte(""))
-	for _, l := range lines {
+	for li, l := range lines {
 		size += len(l) + 8
 		d := []byte(l)
-		if r.Chance(1, 2) {
+		damaged := s.Break > 0 && len(lines) > 0 && li == s.BreakLine%len(lines)
+		if r.Chance(1, 2) && !damaged {
 			mark := ";"
 			if r.Chance(1, 6) {
 				mark = "#"
@@ -587,9 +588,10 @@ func (s *Scenario) argv(wp *worldPaths) []string {
 // ---------- expectations (the executable model of the contract) ----------
 
 type expectation struct {
-	Pin    string // "" (G1/G2 only) | "16" | "17" | "nonzero+pos" | "nonzero" | "0"
-	Why    string
-	NLines int
+	ErrLine int    // nonzero+pos: the line the in-process parser reports (0: unknown)
+	Pin     string // "" (G1/G2 only) | "16" | "17" | "nonzero+pos" | "nonzero" | "0"
+	Why     string
+	NLines  int
 }
 
 func (s *Scenario) srcReadable() bool {
@@ -761,6 +763,18 @@ func judge(s *Scenario, e expectation, o *ScenarioOutcome, image []byte, imageCl
 				break
 			}
 		}
+		if okPos && e.ErrLine > 0 { // comments never move a statement to another line: the line must be the parser's
+			same := false
+			for _, m := range posRe.FindAllStringSubmatch(o.Output, -1) {
+				if ln, _ := strconv.Atoi(m[1] + m[2] + m[3]); ln == e.ErrLine {
+					same = true
+					break
+				}
+			}
+			if !same {
+				return mk("R3-parse-error-wrong-line", "the reported position is not on the line where the parser fails on the comment-free form of the same lines", fmt.Sprintf("line %d", e.ErrLine), clipS(o.Output, 200))
+			}
+		}
 		if !okPos {
 			return mk("R3-parse-error-position", "parse error reported without a position (line number) inside the file", fmt.Sprintf("a position such as line:col with 1<=line<=%d", e.NLines+1), clipS(o.Output, 200))
 		}
@@ -784,9 +798,10 @@ type c19Ctx struct {
 }
 
 type imgEntry struct {
-	once  sync.Once
-	class string
-	bytes []byte
+	once    sync.Once
+	class   string
+	bytes   []byte
+	errLine int // parse_error: the line the in-process parser reports for the comment-free form
 }
 
 // imageOf assembles the comment-free form through the in-process API (native worker).
@@ -810,6 +825,13 @@ func (c *c19Ctx) imageOf(plain []byte) (string, []byte) {
 		switch {
 		case o.ParseClass == "parse_error":
 			e.class = "parse_error"
+			for _, j := range res.Journal {
+				if j.Op == "parse" && !j.Begin {
+					if m := posRe.FindStringSubmatch(j.Msg); m != nil {
+						e.errLine, _ = strconv.Atoi(m[1] + m[2] + m[3])
+					}
+				}
+			}
 		case o.ParseClass == "ok" && o.ExecClass == "ok":
 			e.class, e.bytes = "ok", img
 			if shaHex(img) != o.Sha {
@@ -823,6 +845,17 @@ func (c *c19Ctx) imageOf(plain []byte) (string, []byte) {
 }
 
 func (o *ScenarioOutcome) setDstAbs(p string) { o.dstAbsForJudge = p }
+
+// errLineOf returns the line of the parse error of the comment-free form (0 if unknown).
+func (c *c19Ctx) errLineOf(plain []byte) int {
+	c.imgMu.Lock()
+	e := c.imgCache[shaHex(plain)]
+	c.imgMu.Unlock()
+	if e == nil {
+		return 0
+	}
+	return e.errLine
+}
 
 const cliWatchdog = 90 * time.Second
 
@@ -1012,6 +1045,7 @@ func (c *c19Ctx) execute(s *Scenario, keepDir bool) (out *ScenarioOutcome, viol 
 	sort.Strings(out.WorldChanges)
 	nlines := bytes.Count(src, []byte("\n")) + 1
 	e := s.expect(imageClass, nlines, out.FaultFired)
+	e.ErrLine = c.errLineOf(plain)
 	out.Expect = e.Pin + " (" + e.Why + ")"
 	if pr.Signal != "" {
 		// killed by a signal: the process chose no status; record, judge by G2 only
